@@ -25,6 +25,11 @@ type Entry struct {
 	Name  string
 	Valid func(seed uint64) []byte // a valid encoding, pure function of seed
 	Call  func(in []byte) Result   // the decoding entry point (may panic: that is what C10 looks for)
+	// Reuse, if set, makes a decoder bound to ONE receiver object that is handed every
+	// input in turn (a connection that keeps its key / element object): what an earlier
+	// input left behind — accepted or refused — must not change how the next one is
+	// decoded, and must not make the object panic.
+	Reuse func() func(in []byte) Result
 	// C09:
 	Canon      bool // accepted => Reenc == input
 	// Prefix: the decoder documents (and its tests pin) that it parses a prefix of
@@ -352,6 +357,38 @@ func Exec(mode Mode, planJSON []byte, run *core.Run) {
 	if !judge(Mut{K: "none"}, append([]byte{}, v...)) { // never hand the cached encoding itself to the library
 		return
 	}
+	// receiver-object reuse: faulted input, then the valid encoding, into the same object
+	var reuse func([]byte) Result
+	var fresh Result
+	if e.Reuse != nil {
+		pan, val, st := core.Try(func() { reuse = e.Reuse(); fresh = reuse(append([]byte{}, v...)) })
+		if pan {
+			run.Violate(e.Name, core.PanicClass(val), "valid encoding into a fresh long-lived receiver: %s at %s", val, st)
+			return
+		}
+		run.Fault("history:receiver-object-reused")
+	}
+	judgeReuse := func(m Mut, in []byte) {
+		var r1, r2 Result
+		step := "the faulted input"
+		pan, val, st := core.Try(func() {
+			r1 = reuse(append([]byte{}, in...))
+			step = "the valid encoding that followed it"
+			r2 = reuse(append([]byte{}, v...))
+		})
+		run.Tick(1)
+		one := &Plan{Entry: p.Entry, Seed: p.Seed, Muts: []Mut{m}}
+		if pan {
+			run.ViolateP(one, e.Name, core.PanicClass(val)+"(receiver-reused)", "fault %v (input %s) into a receiver object that is used again: panic while decoding %s: %s at %s", m, trunc(in), step, val, st)
+			reuse = nil // the object is in an unknown state; stop using it in this run
+			return
+		}
+		run.Event("decode-reused", e.Name, m.K, r1.Accepted, r2.Accepted)
+		if r2.Accepted != fresh.Accepted || !bytesEq(r2.Reenc, fresh.Reenc) || r2.Member != fresh.Member {
+			run.ViolateP(one, e.Name, "stale-state-after-earlier-decode", "fault %v: after the receiver object was handed %s (accepted=%v), the valid encoding decodes differently from a fresh receiver (accepted %v vs %v, re-encoding %s vs %s)", m, trunc(in), r1.Accepted, r2.Accepted, fresh.Accepted, trunc(r2.Reenc), trunc(fresh.Reenc))
+			reuse = nil
+		}
+	}
 	defer func() {
 		var ks []string
 		for k := range kinds {
@@ -371,6 +408,9 @@ func Exec(mode Mode, planJSON []byte, run *core.Run) {
 			run.Fault("medium:" + m.K)
 		}
 		judge(m, in) // keep going: later faults may expose a different violation
+		if reuse != nil && m.K != "none" {
+			judgeReuse(m, in)
+		}
 	}
 }
 
